@@ -20,22 +20,47 @@ func checkShowCursorStoresRequest(c *Ctx, p *Prog, rule, tname string) {
 		c.Undecided(rule, tname+".ShowCursor", "-", "not found")
 		return
 	}
+	// the fields are identified by what is stored into them (the two parameters), not by their names
 	ok, detail := true, ""
-	for i, f := range []string{"cursorx", "cursory"} {
-		sts := storesTo(fn, "tcell."+tname, f)
-		if len(sts) != 1 {
+	for i := 1; i <= 2; i++ {
+		prm := fn.Params[i]
+		var fields []FieldRef
+		n := 0
+		eachInstr(fn, func(in ssa.Instruction) {
+			st, isSt := in.(*ssa.Store)
+			if !isSt || derefCell(st.Val) != ssa.Value(prm) {
+				return
+			}
+			ref, _, isF := fieldAddrRef(st.Addr)
+			if !isF {
+				return // the spill of a captured parameter
+			}
+			n++
+			fields = append(fields, ref)
+			for _, g := range rawGuardsAt(st.Block()) {
+				ok = false
+				detail += fmt.Sprintf("the store of %s depends on %s; ", prm.Name(), valName(g.Cond))
+			}
+		})
+		if n != 1 {
 			ok = false
-			detail += fmt.Sprintf("%d store(s) of %s; ", len(sts), f)
-			continue
+			detail += fmt.Sprintf("%d store(s) of the parameter %s into the screen; ", n, prm.Name())
 		}
-		if derefCell(sts[0].Val) != ssa.Value(fn.Params[i+1]) {
-			ok = false
-			detail += fmt.Sprintf("%s receives %s, not the parameter; ", f, valName(sts[0].Val))
-		}
-		for _, g := range rawGuardsAt(sts[0].Block()) {
-			ok = false
-			detail += fmt.Sprintf("the store of %s depends on %s; ", f, valName(g.Cond))
-		}
+		// nothing else is stored into that field here
+		eachInstr(fn, func(in ssa.Instruction) {
+			st, isSt := in.(*ssa.Store)
+			if !isSt || derefCell(st.Val) == ssa.Value(prm) {
+				return
+			}
+			if ref, _, isF := fieldAddrRef(st.Addr); isF {
+				for _, f := range fields {
+					if f == ref {
+						ok = false
+						detail += fmt.Sprintf("%s also receives %s; ", ref.String(), valName(st.Val))
+					}
+				}
+			}
+		})
 	}
 	c.Check(ok, rule, tname+".ShowCursor:stores-the-request", p.pos(fn.Pos()), "the requested position is stored as given, unconditionally "+detail)
 }
